@@ -18,6 +18,7 @@
 #include <sys/personality.h>
 #include <sys/socket.h>
 #include <sys/stat.h>
+#include <sys/resource.h>
 #include <sys/time.h>
 #include <sys/types.h>
 #include <sys/un.h>
@@ -56,6 +57,7 @@ int __real_epoll_create(int);
 int __real_epoll_ctl(int, int, int, struct epoll_event *);
 int __real_epoll_wait(int, struct epoll_event *, int, int);
 int __real_shm_open(const char *, int, mode_t);
+int __real_getrusage(int, struct rusage *);
 int __real_shm_unlink(const char *);
 pid_t __real_fork(void);
 int __real_kill(pid_t, int);
@@ -398,6 +400,15 @@ static std::string shmName(const char *name)
     std::string n = name;
     if (g_active) { if (n.size() > 1 && n[0] == '/') n = "/vsim-" + n.substr(1); /* not squid-*: other squids' cleanup scripts on this host must not hit our segments */ std::string tag = g_scn.rundir; for (auto &c : tag) if (c == '/') c = '_'; n += "-" + tag; if (n.size() > 240) n = n.substr(0, 1) + std::to_string(hashStr(7, n)); }
     return n;
+}
+// resource usage feeds cache manager reports (CPU time, page faults, maximum RSS): real values differ from run to run
+int __wrap_getrusage(int who, struct rusage *r)
+{
+    if (!g_active) return __real_getrusage(who, r);
+    memset(r, 0, sizeof(*r));
+    r->ru_utime.tv_sec = (time_t)((g_now - g_scn.clockStartUs) / 1000000 / 10); // a tenth of the simulated uptime
+    r->ru_maxrss = 65536;
+    return 0;
 }
 int __wrap_shm_open(const char *name, int flags, mode_t mode)
 {
